@@ -173,6 +173,19 @@ func (rc *realCorpus) close() {
 	os.RemoveAll(rc.dir)
 }
 
+// streamFiles collects the files of a StreamSearch.
+func streamFiles(s zoekt.Streamer, q query.Q) (files []zoekt.FileMatch, err error) {
+	defer func() {
+		if r := recover(); r != nil {
+			err = fmt.Errorf("panic: %v", r)
+		}
+	}()
+	err = s.StreamSearch(context.Background(), q, &zoekt.SearchOptions{}, zoekt.SenderFunc(func(r *zoekt.SearchResult) {
+		files = append(files, r.Files...)
+	}))
+	return files, err
+}
+
 func hasTypeRepo(q query.Q) bool {
 	found := false
 	query.Map(q, func(q query.Q) query.Q {
@@ -196,6 +209,7 @@ func canonFile(f zoekt.FileMatch) string {
 
 func (rn *runner) searchList(rc *realCorpus, ctx []*q1q.Shard, q query.Q, viaDir bool, note string) {
 	q1q.Hits(rc.actual, q)
+	setHeadFirst(rc.actual)
 	u := q1q.UniverseOf(rc.actual)
 	wire := u.EncQ(q)
 	det := detail{Op: "search", Ctx: ctx, Q: wire, Dir: viaDir, Note: note}
@@ -212,7 +226,13 @@ func (rn *runner) searchList(rc *realCorpus, ctx []*q1q.Shard, q query.Q, viaDir
 			pos[k] = [2]int{i, j}
 		}
 	}
-	files, err := q1q.SearchFiles(rc.sharded, q, nil)
+	var files []zoekt.FileMatch
+	var err error
+	if rn.n%2 == 0 {
+		files, err = q1q.SearchFiles(rc.sharded, q, nil)
+	} else {
+		files, err = streamFiles(rc.sharded, q)
+	}
 	var impl, goVerdict, key string
 	if err != nil {
 		impl = "error:" + clean(err.Error())
@@ -266,6 +286,26 @@ func (rn *runner) searchList(rc *realCorpus, ctx []*q1q.Shard, q query.Q, viaDir
 				key = goKey(q)
 			} else {
 				goVerdict = "ok"
+				// the files agree; do their Branches fields?
+				wb, gb := map[string]string{}, map[string]string{}
+				for _, one := range rc.single {
+					fs, _ := q1q.SearchFiles(one, q, nil)
+					for _, f := range fs {
+						wb[q1q.FileKey(f.Repository, f.FileName)] = strings.Join(f.Branches, ",")
+					}
+				}
+				for _, f := range files {
+					gb[q1q.FileKey(f.Repository, f.FileName)] = strings.Join(f.Branches, ",")
+				}
+				for k, b := range wb {
+					if gb[k] != b {
+						goVerdict = fmt.Sprintf("FileMatch.Branches of %s: sharded search [%s], per-shard search of the original query [%s]", strings.ReplaceAll(k, "\x00", ":"), gb[k], b)
+						key = "filematch-branches-field"
+						if goKey(q) != "union-differs" || firstFilterIsSingleBranchesRepos(q) {
+							key = "filematch-branches-field-after-branchesrepos-rewrite"
+						}
+					}
+				}
 			}
 		}
 	}
@@ -359,6 +399,26 @@ func (rn *runner) searchList(rc *realCorpus, ctx []*q1q.Shard, q query.Q, viaDir
 
 // goKey classifies a Go-oracle failure: the known class (first top-level filter is a single-entry BranchesRepos
 // with branch "HEAD" or "") or anything else.
+// allHeadFirst: in the corpus being searched every live repository has HEAD as its first and only so-named branch
+// (then the BranchesRepos[HEAD] rewrite is proved sound and a difference is NOT the known finding).
+var allHeadFirst bool
+
+func setHeadFirst(ctx []*q1q.Shard) {
+	allHeadFirst = true
+	for _, s := range ctx {
+		for _, r := range s.Repos {
+			if r.Tombstone {
+				continue
+			}
+			ok := len(r.Branches) > 0 && r.Branches[0] == "HEAD"
+			for _, b := range r.Branches[min(1, len(r.Branches)):] {
+				ok = ok && b != "HEAD"
+			}
+			allHeadFirst = allHeadFirst && ok
+		}
+	}
+}
+
 func goKey(q query.Q) string {
 	q = query.Simplify(q)
 	kids := []query.Q{q}
@@ -368,7 +428,7 @@ func goKey(q query.Q) string {
 	for _, c := range kids {
 		switch s := c.(type) {
 		case *query.BranchesRepos:
-			if len(s.List) == 1 && s.List[0].Branch == "HEAD" {
+			if len(s.List) == 1 && s.List[0].Branch == "HEAD" && !allHeadFirst {
 				return "branchesrepos-head-rewrite"
 			}
 			if len(s.List) == 1 && s.List[0].Branch == "" {
@@ -380,6 +440,23 @@ func goKey(q query.Q) string {
 		}
 	}
 	return "union-differs"
+}
+
+func firstFilterIsSingleBranchesRepos(q query.Q) bool {
+	q = query.Simplify(q)
+	kids := []query.Q{q}
+	if a, ok := q.(*query.And); ok {
+		kids = a.Children
+	}
+	for _, c := range kids {
+		switch s := c.(type) {
+		case *query.BranchesRepos:
+			return len(s.List) == 1
+		case *query.RepoSet, *query.RepoIDs, *query.Repo, *query.Meta:
+			return false
+		}
+	}
+	return false
 }
 
 func listRepos(s zoekt.Searcher, q query.Q) (rl *zoekt.RepoList, err error) {
